@@ -48,6 +48,25 @@ func chunksStr(cs []mp4.Chunk) string {
 	return strings.Join(ss, ";")
 }
 
+// chunkSpanUnsafe predicts, from the exported fields and with the library's own arithmetic, the number of chunks
+// GetContainingChunks(a, b) would allocate and walk: a wrong FirstSampleNr cache (a changed library, an inconsistent
+// table) can make that ~2^32 (tens of GiB, the process is killed). Such calls are not made; the model driver
+// computes the same prediction from the model's state, so a disagreement still shows as a mismatch.
+func chunkSpanUnsafe(sc *mp4.StscBox, a, b uint32) (unsafe bool) {
+	if a == 0 || b < a {
+		return false
+	}
+	_ = hx.Try(func() { // a panic here is the panic the real call meets before its loop
+		sen := sc.FindEntryNrForSampleNr(a, 0)
+		een := sc.FindEntryNrForSampleNr(b, sen)
+		se, ee := sc.Entries[sen], sc.Entries[een]
+		scn := (a-se.FirstSampleNr)/se.SamplesPerChunk + se.FirstChunk
+		ecn := (b-ee.FirstSampleNr)/ee.SamplesPerChunk + ee.FirstChunk
+		unsafe = ecn-scn > 1<<12
+	})
+	return unsafe
+}
+
 // query runs one query ("name:arg:arg") and returns the projected outcome.
 func query(bx *boxes, q string) (res string) {
 	f := strings.Split(q, ":")
@@ -118,6 +137,10 @@ func query(bx *boxes, q string) (res string) {
 			c := s.Stsc.GetChunk(uint32(arg(1)))
 			res = okf("%d/%d/%d", c.ChunkNr, c.StartSampleNr, c.NrSamples)
 		case "cc":
+			if chunkSpanUnsafe(s.Stsc, uint32(arg(1)), uint32(arg(2))) {
+				res = "unsafe-chunk-span"
+				return
+			}
 			cs, err := s.Stsc.GetContainingChunks(uint32(arg(1)), uint32(arg(2)))
 			if err != nil {
 				res = "err"
@@ -158,6 +181,10 @@ func query(bx *boxes, q string) (res string) {
 				}
 			}
 		case "gr":
+			if uint32(arg(1)) >= 1 && uint32(arg(2)) <= s.Stsz.GetNrSamples() && chunkSpanUnsafe(s.Stsc, uint32(arg(1)), uint32(arg(2))) {
+				res = "unsafe-chunk-span"
+				return
+			}
 			rs, err := bx.trak.GetRangesForSampleInterval(uint32(arg(1)), uint32(arg(2)))
 			if err != nil {
 				res = "err"
@@ -636,6 +663,8 @@ func expected(r *tbl.Raw, x *tbl.Ref, q string) string {
 
 func classify(got, want string) string {
 	switch {
+	case got == "unsafe-chunk-span":
+		return "runaway-chunk-span"
 	case got == "panic":
 		return "panic"
 	case got == "err":
